@@ -57,6 +57,8 @@ def make_grid(K, N, table, rule="extend", fv=4.0, order=0):
     from xgcm import Grid
 
     table = reorder(table, order)
+    # the reverse flags as Python bools, numpy booleans or 0/1, by listing order: the same topology
+    table = T.respell_flags(table, order)
 
     ds = xr.Dataset(
         coords={
@@ -130,6 +132,13 @@ def check_pad(rec, K, N, table, axis, comp, wA, wB, ri, li, seed, g=None, case=N
             a[0, 0, 0] = np.nan
             a[K - 1, N - 1, N // 2] = np.nan
     isvec = comp != "s"
+    mixed = isvec and (ri + li + wA[0] + wB[0]) % 4 == 1
+    if mixed:
+        # the padded component in single precision, its partner in double precision with values single precision cannot
+        # hold: what arrives through an axis-swapping link is the partner's value, unrounded
+        arrays = {k: a.copy() for k, a in arrays.items()}
+        arrays[comp] = arrays[comp].astype(np.float32).astype(float)
+        arrays[T.OTHER[comp]] = arrays[T.OTHER[comp]] + 0.1
     # non-triviality: some halo cell comes through a link
     kinds = set()
     uses_partner = flips = False
@@ -162,7 +171,7 @@ def check_pad(rec, K, N, table, axis, comp, wA, wB, ri, li, seed, g=None, case=N
             r = pad(to_da(arrays["s"], "s", layout), g, bw, boundary=dict(brule), fill_value=dict(bfv))
         else:
             oc = T.OTHER[comp]
-            r = pad({comp: to_da(arrays[comp], comp, layout)}, g, bw, boundary=dict(brule), fill_value=dict(bfv),
+            r = pad({comp: to_da(arrays[comp], comp, layout).astype(np.float32) if mixed else to_da(arrays[comp], comp, layout)}, g, bw, boundary=dict(brule), fill_value=dict(bfv),
                     other_component={oc: to_da(arrays[oc], oc, layout)})
     except Exception as e:
         rec.violation("pad", "raise:" + exc_sig(e), case, "padded array", f"{type(e).__name__}: {e}"[:200])
